@@ -185,6 +185,15 @@ def guarded_by_consumption(F, fn, bb, depth=0):
         if d in CONSUMING_ALWAYS and fn.dominates(b2, bb):
             return True
         if d in CONSUMING_RESULT or d == PARSER + "match_and_consume" or d == PARSER + "parse_identifier" or d == PARSER + "parse_variable_name" or d == PARSER + "expect_token_or_end":
+            # `.is_some()` / `.is_none()` of this call's result: the edge on which something was matched dominates bb
+            from .guards import _bool_edges
+            for b3, t3 in fn.calls():
+                if t3["callee"].get("name") in ("is_some", "is_none", "is_ok", "is_err") and t3["args"] and b2 in deep_sources(fn, t3["args"][0]):
+                    e = _bool_edges(fn, b3)
+                    if e:
+                        tg = e[2] if t3["callee"]["name"] in ("is_some", "is_ok") else e[1]
+                        if tg == bb or _dominated_by_edge(fn, bb, e[0], tg):
+                            return True
             # a switch fed by this call's result whose positive edge dominates bb
             for sb in range(len(fn.blocks)):
                 st = fn.term(sb)
